@@ -6,6 +6,7 @@ Everything here is part of the trusted base: these functions say what `isinstanc
 from __future__ import annotations
 
 import ast
+import os
 from fractions import Fraction
 
 from .values import (
@@ -99,7 +100,7 @@ def isinstance_(interp, v, t, node=None):
             return interp.truth(unknown, node)
         return False
     if isinstance(t, ClassV):
-        if isinstance(v, Obj):
+        if isinstance(v, Obj) or type(v).__name__ == "NTuple":
             return v.cls.is_subclass(t)
         if isinstance(v, Ext):
             if v.role in ("module", "function"):
@@ -463,7 +464,15 @@ def make_builtins(interp):
 
     @reg("zip")
     def _(i, a, k, n):
-        cols = [i.materialize(x, n) for x in a]
+        inf = [isinstance(x, IterV) and isinstance(x.items, _Counter) for x in a]
+        cols = [None if f else i.materialize(x, n) for x, f in zip(a, inf)]
+        if all(inf):
+            raise Unsupported("zip of infinite iterators only", n)
+        nmin = min(len(c) for c in cols if c is not None)
+        for j, (x, f) in enumerate(zip(a, inf)):
+            if f:
+                cols[j] = [x.items[x.pos + q] for q in range(nmin)]
+                x.pos += nmin
         return ListV([tuple(t) for t in zip(*cols)])
 
     @reg("range")
@@ -643,6 +652,8 @@ def make_builtins(interp):
 
         if isinstance(a[0], (GenV, IterV)):
             return a[0]
+        if isinstance(a[0], Obj) and a[0].cls.lookup("__iter__")[1] is not None:
+            return i.obj_iter(a[0], n)
         return IterV(a[0])
 
     @reg("next")
@@ -653,6 +664,14 @@ def make_builtins(interp):
         if isinstance(it_, GenV):
             try:
                 return it_.next(n)
+            except _AR as ar:
+                if len(a) > 1 and i.is_stop(ar):
+                    return a[1]
+                raise
+        if isinstance(it_, Obj) and it_.cls.lookup("__next__")[1] is not None:
+            c_, f_ = it_.cls.lookup("__next__")
+            try:
+                return i.call(i.bind(f_, it_, c_), [], {}, n)
             except _AR as ar:
                 if len(a) > 1 and i.is_stop(ar):
                     return a[1]
@@ -738,7 +757,18 @@ def model_module(interp, full):
         return cache[full]
     m = None
     mk = _MODEL_MODULES.get(full)
-    if mk is not None:
+    src = os.path.join(os.path.dirname(os.path.abspath(__file__)), "prelude", full + ".py")
+    if os.path.exists(src):
+        # library module given as interpreted source (generators stay lazy); python-level entries override
+        with open(src) as fh:
+            tree = ast.parse(fh.read(), filename=f"<prelude:{full}>")
+        m = ModuleV(full, f"<prelude:{full}>", tree)
+        m.is_model = True
+        cache[full] = m
+        interp.load_module(m)
+        if mk is not None:
+            mk(interp, m)
+    elif mk is not None:
         m = ModuleV(full, f"<model:{full}>", None)
         m.loaded = True
         m.is_model = True
@@ -862,6 +892,39 @@ def _mod_functools(interp, m):
 
     m.ns["lru_cache"] = BuiltinV("functools.lru_cache", cache_deco)
     m.ns["cache"] = BuiltinV("functools.cache", cache_deco)
+    def partialmethod(i, a, k, n):
+        func, pre, kw = a[0], list(a[1:]), dict(k)
+
+        def call(i2, a2, k2, n2):
+            kk = dict(kw)
+            kk.update(k2)
+            return i2.call(func, [a2[0]] + pre + list(a2[1:]), kk, n2)
+
+        b = BuiltinV(f"functools.<partialmethod {getattr(func, 'qualname', func)}>", call)
+        b.is_method = True
+        b.wrapped = func
+        return b
+
+    m.ns["partialmethod"] = BuiltinV("functools.partialmethod", partialmethod)
+
+    def reduce(i, a, k, n):
+        kind, items = i.iterate(a[1], n)
+        if kind != "known":
+            raise Unsupported("functools.reduce over an iterable of unknown length", n)
+        items = list(items)
+        if len(a) > 2:
+            acc = a[2]
+        elif items:
+            acc = items.pop(0)
+        else:
+            from .interp import AbsRaise
+
+            raise AbsRaise(i.make_exc("TypeError", "reduce() of empty iterable with no initial value"), i.site(n), True)
+        for x in items:
+            acc = i.call(a[0], [acc, x], {}, n)
+        return acc
+
+    m.ns["reduce"] = BuiltinV("functools.reduce", reduce)
     m.ns["wraps"] = BuiltinV("functools.wraps", lambda i, a, k, n: BuiltinV("functools.<wraps>", lambda i2, a2, k2, n2: a2[0]))
     _ext_default_getter(m, "functools")
 
@@ -960,6 +1023,27 @@ def _mod_collections_abc(interp, m):
 
 def _mod_collections(interp, m):
     m.ns["abc"] = model_module(interp, "collections.abc")
+
+    def namedtuple(i, a, k, n):
+        name, fields = a[0], a[1]
+        if isinstance(fields, str):
+            fields = fields.replace(",", " ").split()
+        else:
+            kind, fields = i.iterate(fields, n)
+            if kind != "known":
+                raise Unsupported("namedtuple with unknown fields", n)
+        if not isinstance(name, str) or not all(isinstance(f, str) for f in fields):
+            raise Unsupported("namedtuple with symbolic names", n)
+        fr = i.frames[-1] if i.frames else None
+        cls = ClassV(name, [], {"__doc__": None}, fr.module if fr else None, None, name, mutable=False)
+        cls.nt_fields = list(fields)
+        cls.ns["_fields"] = tuple(fields)
+        d = k.get("defaults")
+        dv = list(i.materialize(d, n)) if d is not None else []
+        cls.nt_defaults = dict(zip(cls.nt_fields[len(cls.nt_fields) - len(dv):], dv))
+        return cls
+
+    m.ns["namedtuple"] = BuiltinV("collections.namedtuple", namedtuple)
     _ext_default_getter(m, "collections")
 
 
@@ -1372,7 +1456,9 @@ def instantiate_elem(interp, lo, idx):
 
     def inst(t):
         if isinstance(t, Ext):
-            e = Ext(f"{t.path}#{idx}", t.origin, role=t.role, maybe_none=t.maybe_none, parent=t)
+            # (leaf of a record template: 'robot.x[].field' -> 'robot.x[]#i.field')
+            path = t.path.replace("[]", f"[]#{idx}", 1) if "[]." in t.path else f"{t.path}#{idx}"
+            e = Ext(path, t.origin, role=t.role, maybe_none=t.maybe_none, parent=t)
             if getattr(t, "meta", None) is not None:
                 e.meta = t.meta
             e.template = t
@@ -1384,8 +1470,13 @@ def instantiate_elem(interp, lo, idx):
             if t[0] == "enumerate":
                 return (idx, interp.generic_elem(src, idx))
             return interp.generic_elem(src, idx)
+        if type(t).__name__ == "NTuple":
+            return type(t)(t.cls, [inst(x) for x in t])
         if isinstance(t, tuple):
             return tuple(inst(x) for x in t)
+        if isinstance(t, Obj) and getattr(t, "is_template", False):
+            o = Obj(t.cls, {k: inst(x) for k, x in t.fields.items()}, label=f"{t.label}#{idx}")
+            return o
         return t
 
     v = inst(lo.elem)
